@@ -118,6 +118,13 @@ def run(rep, tier, seed, workers):
                      kinds=['mod', 'link', 'add', 'savepoint', 'rollback',
                             'commit-vote-fail', 'commit-finish-fail',
                             'commit', 'abort']))
+    # a savepoint (or commit) that fails while it flushes: one of two new
+    # objects cannot be pickled
+    plan.append(dict(prop='C12', kind='M', d=depth - 1, objects=('n', 'm'),
+                     unpicklable=True,
+                     kinds=['link', 'add', 'savepoint', 'rollback',
+                            'savepoint-unpicklable', 'commit-unpicklable',
+                            'commit', 'abort']))
     if tier != 'quick':
         plan.append(dict(prop='C12', kind='M', d=depth - 1,
                          objects=('a', 'n', 'm'), max_handles=3))
@@ -128,7 +135,9 @@ def run(rep, tier, seed, workers):
         rep.bounds['%s%s depth' % (cfg['kind'], '/3obj' if cfg.get(
             'max_handles') else '/failing commits' if cfg.get('rival')
             else '/new object, commits failing after the vote'
-            if cfg.get('objects') == ('n',) else '')] = d
+            if cfg.get('objects') == ('n',)
+            else '/two new objects, flush failing at one'
+            if cfg.get('unpicklable') else '')] = d
 
     rep.cov['states'] = max(states, 1)
     rep.assumptions = [
